@@ -51,13 +51,19 @@ def order_mc(ctx: Ctx, wd, max_steps: int, pres: str, designs: str, name: str):
     return r
 
 
-def order_cause(sc: dict) -> str:
-    why = []
-    if sc["kind"] != "unary" and ((sc["iraise"] and sc["n0"] > 0) or any(s["act"] == "raise" and s["pre"] > 0 for s in sc["steps"])):
-        why.append("log_then_raise")
-    if sc["tr"] == "http" and sc["kind"] == "exch" and any(s["post"] > 0 for s in sc["steps"]):
-        why.append("http_exchange_post_log")
-    return "+".join(why) or "none"
+def order_cause(sc: dict, prog: dict, res: dict) -> str:
+    """Input class of an ordering violation: where the messages that never reached the callback had been logged."""
+    got = {e["n"] for e in res["rv"] if e["e"] == "L"}
+    missing = {e["n"] for e in res["em"] if e["e"] == "l"} - got
+    why = set()
+    if sc["kind"] != "unary" and prog["init_raise"] and missing & {lg["id"] for lg in prog["init_logs"]}:
+        why.add("log_then_raise")
+    for st in prog["steps"]:
+        if st["act"] == "raise" and missing & {lg["id"] for lg in st["pre"]}:
+            why.add("log_then_raise")
+        if sc["tr"] == "http" and sc["kind"] == "exch" and missing & {lg["id"] for lg in st["post"]}:
+            why.add("http_exchange_post_log")
+    return "+".join(sorted(why, reverse=True)) or "none"
 
 
 def order_key(sc: dict) -> str:
@@ -108,7 +114,7 @@ def part_order(ctx: Ctx, wd, worlds) -> None:
                               "model_rv": _c(exp["rv"]), "notes": res["notes"][:3]})
             continue
         for cl in real:
-            ctx.violation(cl, {"part": "order", "transport": sc["tr"], "kind": sc["kind"], "cause": order_cause(sc)},
+            ctx.violation(cl, {"part": "order", "transport": sc["tr"], "kind": sc["kind"], "cause": order_cause(sc, prog, res)},
                           {"script": sc, "emitted": _c(res["em"]), "client_saw": _c(res["rv"]), "model_client_saw": _c(exp["rv"]),
                            "notes": res["notes"][:4], "prog": prog, "specs": specs})
 
